@@ -347,7 +347,7 @@ def main_check(prop, tier, seed, replay=None, workers=None):
 
     required = list(getattr(mod, "REQUIRED", []))
     missing = [c for c in required if counters.get(c, 0) == 0]
-    inconclusive = bool(errors) or bool(missing) or evaluations == 0 or (len(sigs) < 2 and not real)
+    inconclusive = bool(errors) or ((bool(missing) or evaluations == 0 or (len(sigs) < 2 and not real)) and not replay)
 
     evidence = {
         "property_id": prop,
